@@ -125,6 +125,8 @@ def seeded_cases(rng, n):
             top = [t(), pp.nl(), pp.inc("x.svh", form=rng.choice([0, 1])), pp.nl(), t(), pp.nl()]
         files["top.sv"] = top
         out.append(({"files": files, "top": "top.sv", "incdirs": incdirs, "ign": ign, "fs_extra": fs_extra, "predef": predef}, kind))
+        if rng.random() < 0.15:
+            out[-1][0]["nl"] = "\r\n"         # CRLF line ends in every file of the case
     return out
 
 
